@@ -152,7 +152,7 @@ Theorem C19_pending_until_committed :
 Proof. exact (conj step_pending pending_evidence_all). Qed.
 Print Assumptions C19_pending_until_committed.
 
-(** the proposer's selection: with a byte cap that admits the first pending entry (the default
+(** the proposer's selection: with a byte cap that has room for the first pending entry (the default
     cap is the 104857-byte budget since commit e536522) at least that entry is proposed *)
 Theorem C19_pending_proposed :
   forall p e t cap,
